@@ -648,7 +648,7 @@ impl Task for ExternalEquivalenceTask {
             }
         }
 
-        let mut taken_predicates = self.user_guide.input_predicates();
+        let mut taken_predicates = self.user_guide.public_predicates();
         for anf in left.formulas.iter() {
             taken_predicates.extend(anf.formula.predicates());
         }
